@@ -18,6 +18,9 @@ func init() {
 }
 
 func runC11(w *World, r *Report) {
+	// deletion (also the one that cleans up a failed create) removes record and checkpoints together only for a task
+	// it finds in memory
+	defer r.importRules(runC19, "C11-", map[string]bool{"C19-R9": true})
 	r.Rule("C11-R1", "no busy wait on a close-only channel", "in every blocking select inside a loop, a case that receives from a struct{} channel must leave the loop", 8)
 	r.Rule("C11-R2", "reference counting is paired", "Inc next to taskQuitFuncs.Insert; Dec dominated by GetAndRemove==ok; entityQuitFunc + delete(entity) dominated by refCnt.Load()==0 under the replicateEntityMap lock; no error return after Inc in startInternal", 6)
 	r.Rule("C11-R3", "memory follows the store", "every store to TaskInfo.State of a task held in cdcTasks is dominated by the success outcome of the persisted state update", 2)
